@@ -1,4 +1,4 @@
-from typing import Dict, Optional
+from typing import Dict, List, Optional
 
 from . import ast
 from .grammar import ODataLexer, ODataParser  # type: ignore
@@ -38,19 +38,54 @@ class AliasRewriter(NodeTransformer):
             for k, v in self.field_aliases.items()
         }
 
+        # Variables bound by the lambdas we're currently inside of. These are
+        # not fields, so they should never be replaced.
+        self._bound_variables: List[ast.Identifier] = []
+
+    def _is_bound(self, node: ast._Node) -> bool:
+        """:meta private:"""
+        while isinstance(node, ast.Attribute):
+            node = node.owner
+        return node in self._bound_variables
+
     def visit_Identifier(self, node: ast.Identifier) -> ast._Node:
         """:meta private:"""
+        if self._is_bound(node):
+            return node
         if node in self.replacements:
             return self.replacements[node]
         return node
 
     def visit_Attribute(self, node: ast.Attribute) -> ast._Node:
         """:meta private:"""
+        if self._is_bound(node):
+            return node
         if node in self.replacements:
             return self.replacements[node]
         else:
             new_owner = self.visit(node.owner)
             return ast.Attribute(new_owner, node.attr)
+
+    def visit_Call(self, node: ast.Call) -> ast._Node:
+        """:meta private:"""
+        # The function name is not a field, only rewrite the arguments:
+        return ast.Call(node.func, [self.visit(arg) for arg in node.args])
+
+    def visit_NamedParam(self, node: ast.NamedParam) -> ast._Node:
+        """:meta private:"""
+        # The parameter name is not a field, only rewrite its value:
+        return ast.NamedParam(node.name, self.visit(node.param))
+
+    def visit_Lambda(self, node: ast.Lambda) -> ast._Node:
+        """:meta private:"""
+        # The lambda variable is not a field, neither where it is bound nor
+        # where it is used inside the lambda's expression:
+        self._bound_variables.append(node.identifier)
+        try:
+            expression = self.visit(node.expression)
+        finally:
+            self._bound_variables.pop()
+        return ast.Lambda(node.identifier, expression)
 
 
 class IdentifierStripper(NodeTransformer):
